@@ -106,7 +106,7 @@ def check_j4(ctx, A, db, footer_size, RULE_NAME):
                 Aaddr, aggv = fa
                 ab, prev, lay = field_of(aggv, 'allocated_bytes'), field_of(aggv, 'prev'), field_of(aggv, 'layout')
                 sites.add((fn, 'agg'))
-                writers.add(arena.innermost(e))
+                writers.add(arena.owner_fn(I, e))
                 P = arena.mk_prover(I, e, res)
                 want = app('add', ('load', ('fld', ('deref', prev), 'ChunkFooter.allocated_bytes'), None), app('sub', app('size', lay), footer_size))
                 okv = False
@@ -126,7 +126,7 @@ def check_j4(ctx, A, db, footer_size, RULE_NAME):
             elif ff and ff[1] == 'allocated_bytes':
                 F = ff[0]
                 sites.add((fn, 'field'))
-                writers.add(arena.innermost(e))
+                writers.add(arena.owner_fn(I, e))
                 P = arena.mk_prover(I, e, res)
                 # prev of F must be the sentinel at this point (accumulated bytes of the sentinel are 0)
                 prev_stores = [s for s in res.events[:res.events.index(e)] if s.kind == 'store' and arena.footer_field(s) == (F, 'prev')]
